@@ -66,3 +66,13 @@ def assume(cond):
 def uf_bytes(name, fn, data, maxlen, outlen):
     """fn(data); the engine keeps it opaque (congruence only) for symbolic data"""
     return fn(data)
+
+
+def class_attr(key, name):
+    """value of a class attribute of a repository class (engine only: contracts that use it are
+    not replayed natively)"""
+    raise NotImplementedError("class_attr is an engine-only helper")
+
+
+def set_class_attr(key, name, value):
+    raise NotImplementedError("set_class_attr is an engine-only helper")
